@@ -310,7 +310,29 @@ Program gen_program(uint64_t seed, const GenParams &gp, const std::string &profi
                     } else define_phase(false);
                 }
             } else if (gp.fill && v.isrec) { o.kind = OP_FILL_VAR_REC; o.a[0] = rng.range(0, f.numrecs + 1); emit(o); }
-            else if (gp.meta_heavy) { o.kind = OP_RENAME_VAR; size_t cut = std::max<size_t>(1, v.name.size() - 1); while (cut > 1 && ((unsigned char)v.name[cut] & 0xC0) == 0x80) cut--; o.name2 = v.name.substr(0, cut); if (o.name2 != v.name) emit(o); }
+            else if (gp.meta_heavy) {
+                // data-mode metadata updates: rename to a shorter name, overwrite an attribute with a value whose padded size does not grow
+                auto shorter = [&](const std::string &nm) { size_t cut = std::max<size_t>(1, nm.size() - 1 - (nm.size() > 3 ? rng.below(2) : 0)); while (cut > 1 && ((unsigned char)nm[cut] & 0xC0) == 0x80) cut--; return nm.substr(0, cut); };
+                int w = (int)rng.below(5);
+                if (w == 0) { o.kind = OP_RENAME_VAR; o.name2 = shorter(v.name); if (o.name2 != v.name) emit(o); }
+                else if (w == 1 && !f.dims.empty()) { o.kind = OP_RENAME_DIM; o.dim = (int)rng.below(f.dims.size()); o.name2 = shorter(f.dims[o.dim].name); if (o.name2 != f.dims[o.dim].name) emit(o); }
+                else {
+                    bool glob = f.vars.empty() || rng.chance(0.5); int avi = glob ? -1 : (int)rng.below(f.vars.size());
+                    auto &l = glob ? f.gatts : f.vars[avi].atts;
+                    if (!l.empty()) {
+                        size_t ai = rng.below(l.size()); MAtt old = l[ai];
+                        if (w == 2 && old.name != "_FillValue") { o.kind = OP_RENAME_ATT; o.var = avi; o.a[0] = (long long)ai; o.name2 = shorter(old.name); if (o.name2 != old.name) emit(o); }
+                        else if (old.name != "_FillValue") {
+                            o.kind = OP_PUT_ATT; o.var = avi; o.name = old.name;
+                            long long cap = ((long long)old.v.size() * nc_type_size(old.type) + 3) / 4 * 4;
+                            o.att.type = rng.chance(0.6) ? old.type : pick_type(rng, f.format); if (old.type == NC_CHAR || o.att.type == NC_CHAR) o.att.type = old.type;
+                            long long maxn = cap / nc_type_size(o.att.type); long long n = rng.chance(0.5) ? maxn : (long long)rng.range(0, maxn);
+                            for (long long k2 = 0; k2 < n; k2++) o.att.v.push_back((long long)rng.range(1, 100000));
+                            emit(o);
+                        }
+                    }
+                }
+            }
             if (gp.badids && rng.chance(0.25)) { Op b; b.kind = OP_BADID; b.file = fi; b.a[0] = rng.below(4); b.a[1] = rng.below(16); b.a[2] = rng.below(100); emit(b); }
             if (gp.checkpoint_each) checkpoint();
         }
